@@ -236,6 +236,9 @@ func runWaiting(c *enum.Ctx, name string, modeB bool, body func(s *sched.S, p *p
 		}
 	}()
 	s.ModeB = modeB
+	// observation only (outcome data-race-observed:*): C13's statement does not speak about data races, but exploring at
+	// synchronisation points only is complete for race-free executions
+	s.RaceDetect = os.Getenv("C13_NORACE") == ""
 	rec := &record{}
 	var p *pool.ConnPool
 	var conns []*pool.VerifRealConn
@@ -250,6 +253,10 @@ func runWaiting(c *enum.Ctx, name string, modeB bool, body func(s *sched.S, p *p
 	c.Case([]byte(fmt.Sprintf("%s/%d/%d/%d", name, s.States(), s.Steps(), s.Preemptions)), true)
 	c.Sample(map[string]any{"scenario": name, "mode_b": modeB, "scheduling_points": s.Steps(), "distinct_scheduler_states": s.States(), "preemptions": s.Preemptions, "time_jumps": s.TimeJumps})
 	c.Outcome(fmt.Sprintf("waits=%d", len(rec.waits)))
+	if s.Race != nil {
+		c.Outcome("data-race-observed:" + s.Race.Key)
+		c.Label("observation (not judged by C13): %s", s.Race.Detail)
+	}
 	if s.StepCap {
 		c.Outcome("step-cap")
 		return
